@@ -278,6 +278,7 @@ func checkReaderDiscipline(c *Ctx, p *packages.Package) {
 	c.Check("R19.4", "reader: a latched error is returned before anything is read", token.NoPos, sticky, "next() does not start with `if i.err != nil { return 0, i.err }`")
 	// (b) io.EOF is latched only when the byte under forward is the sentinel, in the branch that excludes the half boundaries
 	eofOK := false
+	eofByValue := ""
 	ast.Inspect(nextB.Body, func(n ast.Node) bool {
 		ifs, ok := n.(*ast.IfStmt)
 		if !ok {
@@ -295,15 +296,29 @@ func checkReaderDiscipline(c *Ctx, p *packages.Package) {
 				}
 				return true
 			})
-			if assignsEOF && depth >= 2 && strings.Contains(types.ExprString(cur.Cond), "eof") {
+			if assignsEOF && depth >= 2 {
 				eofOK = true
+				// the decision must not read a data byte: every byte value, 0x00 included, can occur in the input
+				ast.Inspect(cur.Cond, func(m ast.Node) bool {
+					if ix, ok := m.(*ast.IndexExpr); ok {
+						if t, ok := info.TypeOf(ix.X).Underlying().(*types.Slice); ok {
+							if b, ok := t.Elem().Underlying().(*types.Basic); ok && b.Kind() == types.Uint8 {
+								eofByValue = types.ExprString(cur.Cond)
+							}
+						}
+					}
+					return true
+				})
 			}
 			next, _ := cur.Else.(*ast.IfStmt)
 			cur = next
 		}
 		return false
 	})
-	c.Check("R19.4", "reader: end of input is latched only when the next byte is the sentinel and forward is not at a half boundary", token.NoPos, eofOK, "io.EOF is assigned outside the last branch of the boundary test chain")
+	c.Check("R19.4", "reader: end of input is latched only in the branch that excludes the half boundaries", token.NoPos, eofOK, "io.EOF is assigned outside the last branch of the boundary test chain")
+	c.Check("R19.4", "reader: the end of the input is found by position, not by the value of a byte of the input", token.NoPos, eofOK && eofByValue == "",
+		fmt.Sprintf("io.EOF is latched under `%s`, a comparison of a buffer byte with a sentinel value: an input that contains that byte (0x00 is valid UTF-8) ends there silently and the rest is never lexed", eofByValue),
+		"1+2\\x00+3")
 	// (b2) a buffer half is loaded once: the loads are guarded by state other than the forward pointer, which Retract moves back
 	loaders := map[string]bool{}
 	type readSite struct {
